@@ -12,7 +12,7 @@ META = dict(
            "sphere-sphere contact; quaternion rod with a line load and a rigid connection): every System evaluation on a SYMBOLIC state equals, entry by "
            "entry, the dense accumulation of the contributions' own outputs at their DOFs; (b) index sets partition the global ranges (integers, checked "
            "directly); (b') derived evaluations xi_F, chi_N, chi_g, zeta_g, g_dot_u, E_kin, Mu_q, tau / set_tau (vector and callable) "
-           "on the three families and on an actuator family (PD controller with 2 inputs / 1 force, two motors, compliance spring); (c) assemble() twice: identical layout and evaluations; (d) name registry: all add / remove / pop / extend histories of length <= 3 "
+           "on the three families and on an actuator family (PD controller with 2 inputs / 1 force, two motors, compliance spring); (b'') h / h_q / h_u on a rod with a spring between two of its own cross-sections (index sets with repeated DOFs); (c) assemble() twice: identical layout and evaluations; (d) name registry: all add / remove / pop / extend histories of length <= 3 "
            "(quick) / 4 over contributions with colliding names.",
     assumptions=["quaternion parts nonzero", "sparse containers stubbed by their COO->dense law (C15)"],
     trusted_base=[],
